@@ -348,3 +348,75 @@ func C03_reader_fault() {
 		sym.Assert(k < 0 || k >= len(doc) || err != nil, "fault surfaces as an error")
 	}
 }
+
+// ---- one selection node met under several concrete types
+
+const c03AbsSchema = `
+interface I { f(x: Int, y: Int): Int g: Int }
+type A implements I { f(x: Int, y: Int): Int g: Int a: Int }
+type B implements I { f(x: Int, y: Int): Int g: Int b: Int }
+union U = A | B
+type Query { is: [I] us: [U] i: I }
+`
+
+type C03A struct{}
+type C03B struct{}
+
+func (*C03A) Resolve(field *ggql.Field, args map[string]interface{}) (interface{}, error) {
+	return int32(len(args)), nil
+}
+func (*C03B) Resolve(field *ggql.Field, args map[string]interface{}) (interface{}, error) {
+	return int32(10 + len(args)), nil
+}
+
+type c03AbsQuery struct{ elems []interface{} }
+
+func (q *c03AbsQuery) Resolve(field *ggql.Field, args map[string]interface{}) (interface{}, error) {
+	switch field.Name {
+	case "query":
+		return q, nil
+	case "is", "us":
+		return q.elems, nil
+	case "i":
+		return q.elems[0], nil
+	}
+	return nil, nil
+}
+
+var c03AbsRequests = []string{
+	"{is{f(x:1)}}", "{is{f(y:2)}}", "{is{f}}", "{is{f(y:2 x:1)}}", "{is{...on I{f(x:1)}}}",
+	"{is{...F}} fragment F on I{f(y:1) g}", "{us{...on I{f(x:1)}}}", "{us{f(x:1)}}", "{us{...on A{f(y:1)} ...on B{f(x:2)}}}",
+	"{is{f(x:1) ...on A{f(y:2)}} i{f(y:3)}}", "{is{g f(zz:1)}}", "{is{f(x:null)}}",
+}
+
+// C03_abstract_args: fields with several declared arguments, partly supplied,
+// selected on an interface / union whose list holds objects of several
+// concrete types in every order: the same selection node is resolved under
+// each of them.  (Resolver nodes bound with RegisterType; argument handling
+// of the reflection strategy is the recorded finding of C03_resolve_adversarial.)
+func C03_abstract_args() {
+	req := c03AbsRequests[sym.Choice("request", len(c03AbsRequests))]
+	n := 1 + sym.Choice("elements", 3)
+	q := &c03AbsQuery{}
+	for k := 0; k < n; k++ {
+		isA := sym.Choice("element type", 2) == 0
+		if isA {
+			q.elems = append(q.elems, &C03A{})
+		} else {
+			q.elems = append(q.elems, &C03B{})
+		}
+	}
+	root := ggql.NewRoot(q)
+	if err := root.ParseString(c03AbsSchema); err != nil {
+		panic("harness schema rejected: " + err.Error())
+	}
+	if root.RegisterType(&C03A{}, "A") != nil || root.RegisterType(&C03B{}, "B") != nil {
+		panic("harness: RegisterType refused")
+	}
+	sym.Budget(6_000_000)
+	res := root.ResolveString(req, "", nil)
+	sym.Assert(res != nil, "a response is returned")
+	if sym.Choice("again", 2) == 1 {
+		sym.Assert(root.ResolveString(req, "", nil) != nil, "a response is returned")
+	}
+}
